@@ -66,10 +66,7 @@ theorem sameCrc_of_cl {s s' : Sys} (h : s'.cl = s.cl) : SameCrc s s' := by
 
 theorem ackBlock_same (E : Env) (s : Sys) : SameCrc s (ackBlock E s) := by
   unfold ackBlock
-  simp only
-  split
-  · exact ⟨by simp, by simp, by simp, by simp⟩
-  · exact sameCrc_of_cl (by simp)
+  exact ⟨by simp, by simp, by simp, by simp⟩
 
 theorem retransmit_same (E : Env) (s : Sys) : SameCrc s (retransmit E s).1 := by
   have h := ackBlock_same E s
@@ -192,16 +189,9 @@ theorem readStep_spec (E : Env) (s : Sys) (d : Bytes) (s' : Sys) (acc : Bytes) (
     | none => simp at h
     | some r2 =>
       simp only at h h2
-      have h3 := seqCheck_same E s2 r2
-      generalize seqCheck E s2 r2 = z at h3 h
-      obtain ⟨s3, o3⟩ := z
-      cases o3 with
-      | none => simp at h
-      | some r3 =>
-        simp only at h h3
-        have hs := (h1.trans h2).trans h3
-        have := afterSeq_spec E s3 r3 d s' acc (ci_of_same hs hci) (by rw [hs.done]; exact hnd) h
-        exact ⟨this.1, by rw [this.2, hs.sup]⟩
+      have hs := h1.trans h2
+      have := afterSeq_spec E s2 r2 d s' acc (ci_of_same hs hci) (by rw [hs.done]; exact hnd) h
+      exact ⟨this.1, by rw [this.2, hs.sup]⟩
   | resp r1 =>
     simp only [andThen] at h
     have h3 := seqCheck_same E s1 r1
